@@ -3,8 +3,8 @@ package props
 // C06 IDL parser: nothing ill-formed accepted, nothing silently ignored.
 
 import (
-	"os"
 	"fmt"
+	"os"
 	"strings"
 	"testing"
 
